@@ -236,7 +236,12 @@ func TestVerifC13Ring(t *testing.T) {
 			counts := map[int]int{}
 			where := fmt.Sprintf("step %d %+v (node %q)", step, op, c13Repr(node))
 			for ki, k := range keys {
-				got, ok := ch.Get(k)
+				var got any
+				var ok bool
+				if pv, panicked := vk.Recover(func() { got, ok = ch.Get(k) }); panicked {
+					m.Violate("C13:get-panic", desc(), "%s: Get(%q) panicked: %v (virtual nodes %v)", where, k, pv, replicas)
+					break
+				}
 				gi := -1
 				if ok {
 					gi = index(got)
